@@ -391,7 +391,7 @@ func runEngineInProc(c Case, emit Emitter) {
 		ev := Ev{"ev": "step", "case": c.ID, "i": i, "op": op}
 		res, again, saved := engNoRes(), engNoRes(), engNoRes()
 		dmod := []string{}
-		ctx.sync()
+		// (the deep dumps are current: the previous step ended with a sync and nothing ran since)
 		var ret string
 		switch op.Name() {
 		case "Config":
